@@ -43,7 +43,7 @@ func c14Exec(which int, cs hx.Sx) hx.Sx {
 	it := hx.Items(cs)
 	switch which {
 	case 0:
-		fn, _, err := construct(nodeFromSx(it[1]), int(hx.Int(it[0])))
+		fn, _, err := construct(nodeFromSx(it[1]), int(hx.Int(it[0]))&1)
 		if err != nil {
 			return obsReject
 		}
@@ -59,7 +59,7 @@ func c14Exec(which int, cs hx.Sx) hx.Sx {
 		return hx.Bool(res)
 
 	case 1:
-		via := int(hx.Int(it[0]))
+		via := int(hx.Int(it[0])) & 1
 		var fns []checkFn
 		for _, t := range hx.Items(it[1]) {
 			fn, _, err := construct(nodeFromSx(t), via)
